@@ -225,3 +225,45 @@ M['C16'] = [
     dict(id='c16-benign-hash-setter-early-return', kind='benign', edits=[
         ('src/hash.c', '    if (at != NULL) {\n        h->bucket.at = at;\n        h->bucket.capacity = sz;\n    }', '    if (at == NULL) {\n        return;\n    }\n    h->bucket.at = at;\n    h->bucket.capacity = sz;')]),
 ]
+
+# ------------------------------------------------------------------------------------------- C04
+_WBOUND = '''    count = h->bucket.count;
+    if (h->bucket.rh.hash != NULL && h->bucket.rh.count > count) {
+        count = h->bucket.rh.count;
+    }
+'''
+M['C04'] = [
+    dict(id='c04-revert-walker-bound', kind='fault', rule='E1', edits=[
+        ('src/hash.c', _WBOUND, '    count = h->bucket.count;\n')]),
+    dict(id='c04-walker-bound-always-pending-count', kind='fault', rule='E1', edits=[
+        ('src/hash.c', _WBOUND, '    count = h->bucket.count;\n    if (h->bucket.rh.hash != NULL) {\n        count = h->bucket.rh.count;\n    }\n')]),
+    dict(id='c04-walker-bound-ignores-pending-flag', kind='fault', rule='E1', edits=[
+        ('src/hash.c', _WBOUND, '    count = h->bucket.count;\n    if (h->bucket.rh.count > count) {\n        count = h->bucket.rh.count;\n    }\n')]),
+    dict(id='c04-foreach-without-forced-rehash', kind='fault', rule='E2', edits=[
+        ('src/hash.c', '    cstl_hash_rehash(h);\n    return __cstl_hash_foreach(h, visit, p);', '    return __cstl_hash_foreach(h, visit, p);')]),
+    dict(id='c04-successor-read-after-visit', kind='fault', rule='E3', edits=[
+        ('src/hash.c', '    HASH_LIST_FOREACH(n, n, nn) {\n        if ((res = visit(__cstl_hash_element(h, n), p)) != 0) {\n            break;\n        }\n    }',
+         '    while (n != NULL) {\n        if ((res = visit(__cstl_hash_element(h, n), p)) != 0) {\n            break;\n        }\n        n = n->next;\n    }\n    (void)nn;')]),
+    dict(id='c04-revert-clear-hash-reset', kind='fault', rule='E4', edits=[
+        ('src/hash.c', '    h->bucket.capacity = 0;\n    h->bucket.hash = NULL;\n', '    h->bucket.capacity = 0;\n')]),
+    dict(id='c04-clear-keeps-pending-rehash', kind='fault', rule='E4', edits=[
+        ('src/hash.c', '    h->bucket.hash = NULL;\n\n    h->bucket.rh.hash = NULL;\n\n    h->count = 0;', '    h->bucket.hash = NULL;\n\n    h->count = 0;')]),
+    dict(id='c04-clear-count-only-with-callback', kind='fault', rule='E4', edits=[
+        ('src/hash.c', '        __cstl_hash_foreach(h, cstl_hash_clear_visit, &hcp);\n    }', '        __cstl_hash_foreach(h, cstl_hash_clear_visit, &hcp);\n        h->count = 0;\n    }'),
+        ('src/hash.c', '    h->bucket.rh.hash = NULL;\n\n    h->count = 0;\n}', '    h->bucket.rh.hash = NULL;\n}')]),
+    dict(id='c04-clear-no-free', kind='fault', rule='E4', edits=[
+        ('src/hash.c', '    free(h->bucket.at);\n    h->bucket.at = NULL;', '    h->bucket.at = NULL;')]),
+    dict(id='c04-walk-continues-after-stop', kind='fault', rule='E5', edits=[
+        ('src/hash.c', '    for (i = 0, res = 0; i < count && res == 0; i++) {\n        res = cstl_hash_bucket_foreach(h, h->bucket.at[i].n, visit, p);\n    }',
+         '    for (i = 0, res = 0; i < count; i++) {\n        res = cstl_hash_bucket_foreach(h, h->bucket.at[i].n, visit, p);\n    }')]),
+    dict(id='c04-stop-value-normalised', kind='fault', rule='E5', edits=[
+        ('src/hash.c', '    for (i = 0, res = 0; i < count && res == 0; i++) {\n        res = cstl_hash_bucket_foreach(h, h->bucket.at[i].n, visit, p);\n    }\n\n    return res;',
+         '    for (i = 0, res = 0; i < count && res == 0; i++) {\n        res = cstl_hash_bucket_foreach(h, h->bucket.at[i].n, visit, p);\n    }\n\n    return res != 0;')]),
+    dict(id='c04-benign-bound-as-ternary', kind='benign', edits=[
+        ('src/hash.c', _WBOUND, '    count = (h->bucket.rh.hash != NULL && h->bucket.rh.count > h->bucket.count)\n        ? h->bucket.rh.count : h->bucket.count;\n')]),
+    dict(id='c04-benign-const-foreach-forces-rehash-style', kind='benign', edits=[
+        ('src/hash.c', '    for (i = 0, res = 0; i < count && res == 0; i++) {\n        res = cstl_hash_bucket_foreach(h, h->bucket.at[i].n, visit, p);\n    }',
+         '    res = 0;\n    i = 0;\n    while (res == 0 && i < count) {\n        res = cstl_hash_bucket_foreach(h, h->bucket.at[i].n, visit, p);\n        i++;\n    }')]),
+    dict(id='c04-benign-clear-via-init', kind='benign', edits=[
+        ('src/hash.c', '    h->bucket.count = 0;\n    h->bucket.capacity = 0;\n    h->bucket.hash = NULL;\n\n    h->bucket.rh.hash = NULL;\n\n    h->count = 0;', '    cstl_hash_init(h, h->off);')]),
+]
